@@ -105,11 +105,17 @@ def int_eval(fn, env: dict[str, object], consts: dict[str, object] | None = None
         if isinstance(e, ast.UnaryOp) and isinstance(e.op, ast.USub):
             return -ev(e.operand, loc)
         if isinstance(e, ast.BoolOp):
-            vals = [ev(v, loc) for v in e.values]
-            return all(vals) if isinstance(e.op, ast.And) else any(vals)
-        if isinstance(e, ast.BinOp) and isinstance(e.op, (ast.Add, ast.Sub)):
+            # Python semantics: the value of the deciding operand (`expires or maximum`), short-circuit
+            val = None
+            for v in e.values:
+                val = ev(v, loc)
+                if bool(val) != isinstance(e.op, ast.And):
+                    return val
+            return val
+        if isinstance(e, ast.BinOp) and isinstance(e.op, (ast.Add, ast.Sub, ast.Mult, ast.FloorDiv, ast.Mod)):
             l, r = ev(e.left, loc), ev(e.right, loc)
-            return l + r if isinstance(e.op, ast.Add) else l - r
+            return {ast.Add: lambda: l + r, ast.Sub: lambda: l - r, ast.Mult: lambda: l * r, ast.FloorDiv: lambda: l // r,
+                    ast.Mod: lambda: l % r}[type(e.op)]()
         if isinstance(e, ast.Compare):
             left = ev(e.left, loc)
             for op, c in zip(e.ops, e.comparators):
